@@ -164,6 +164,36 @@ func (r *acceptRun) run(c *engine.Chooser) {
 	}
 }
 
+// feedIllFormed writes parser output that the reference expander rejects for
+// window W into a Decoder with the same window; an error other than a size
+// refusal is reported.
+func (r *acceptRun) feedIllFormed(blocks []lz.Block) {
+	var c engine.Chooser
+	c.Reset(nil)
+	r.c = &c
+	r.log = r.log[:0]
+	defer func() {
+		if x := recover(); x != nil {
+			r.report("Decoder.WriteBlock|panic", "Decoder panicked on parser output: %v (W=%d)", x, r.W)
+		}
+	}()
+	w := &countingWriter{}
+	d, err := lz.NewDecoder(w, lz.DecoderConfig{WindowSize: r.W})
+	if err != nil {
+		return
+	}
+	for i, blk := range blocks {
+		_, _, _, err := d.WriteBlock(blk)
+		r.st.Transitions++
+		if err != nil {
+			if !isSizeRefusal(err) {
+				r.report("Decoder.WriteBlock|parser-output-rejected", "block %d emitted by the parser with WindowSize %d is rejected by a Decoder with the same window: %v; block %+v", i, r.W, err, blk)
+			}
+			return
+		}
+	}
+}
+
 func blockLen(b *lz.Block) int64 {
 	n := int64(len(b.Literals))
 	for _, s := range b.Sequences {
@@ -254,6 +284,13 @@ func acceptShards(prop, tier string) []engine.Shard {
 								s, ok := finishStream("", r.W, blocks)
 								if !ok || !bytes.Equal(s.Want, in) {
 									st.Add("streams_not_wellformed_or_wrong(C01/C02)", 1)
+									// "everything a parser of this module emits with WindowSize W is accepted": the parser's
+									// stream is not well-formed for W (C02's finding), but a refusal by the decoder with the
+									// same window is also a violation of this clause
+									if prop == "C07" {
+										r.stream, r.input, r.decB = &s, in, 0
+										r.feedIllFormed(blocks)
+									}
 									return
 								}
 								st.Nontrivial++
@@ -300,11 +337,15 @@ func replayAccept(prop string, raw json.RawMessage, col *engine.Collector) error
 		return err
 	}
 	s, ok := finishStream("", bc.WindowSize, blocks)
-	if !ok {
-		return fmt.Errorf("parser output is not well-formed")
-	}
 	var st engine.Stats
 	r := &acceptRun{st: &st, col: col, prop: prop, pc: pc, input: in, stream: &s, W: bc.WindowSize, decB: ac.DecB}
+	if !ok || !bytes.Equal(s.Want, in) {
+		if prop == "C07" {
+			r.feedIllFormed(blocks)
+		}
+		fmt.Printf("replayed %s %s input %q: parser output is not well-formed for its window\n", ac.Kind, ac.Cfg, in)
+		return nil
+	}
 	var c engine.Chooser
 	c.Reset(ac.Choices)
 	r.run(&c)
